@@ -186,7 +186,8 @@ inductive Sh where
 /-- the parameters of src/Table.c as the translator reads them (same as `tableCfgNow` of Props/C05.lean) -/
 def tcfg : Cello.Table.Cfg :=
   { ge := CelloGen.Table.tieGe, growEmpty := CelloGen.Table.setGrowsEmpty,
-    ideal := Cello.Table.idealSize CelloGen.Table.primes CelloGen.Table.loadNum CelloGen.Table.loadDen }
+    ideal := Cello.Table.idealSize CelloGen.Table.primes CelloGen.Table.loadNum CelloGen.Table.loadDen,
+    selfGuard := CelloGen.Table.assignGuardsSelf, getChecksKey := CelloGen.Table.getShortcutChecksKey }
 
 abbrev Shadow := List (Nat × Sh)
 
